@@ -128,13 +128,14 @@ Definition span_impl (t : ity) (m : mapping) : res Z :=
       match es with
       | [] => Ok 1
       | [e] => Ok e
-      | _ :: es' => prod_loop t ps es'
+      | _ :: es' => if existsb (Z.eqb 0) es then Ok 0 else prod_loop t ps es'
       end
   | MRPad es ps =>
       match es with
       | [] => Ok 1
       | [e] => Ok e
-      | _ => bind (prod_loop t 1 (removelast es)) (fun v => rmap (wrap t) (mulP t v ps))
+      | _ => if existsb (Z.eqb 0) es then Ok 0 else
+             bind (prod_loop t 1 (removelast es)) (fun v => rmap (wrap t) (mulP t v ps))
       end
   end.
 
